@@ -18,6 +18,8 @@
   What a directory's bytes ARE (Model/Fat/TreeImg.lean: `image` = every directory's chain holds the
   serialisation of its child list) and re-opening the volume from table + bytes alone:
   `fat_image_holds_directories`, `fat_reopen_image`, `fat_tree_reopen_history`.
+  Lack of space characterised for the tree (`fat_tree_create_enospc_iff`, `fat_tree_mkdir_enospc_iff`:
+  refused iff free clusters < 1 + growth of the parent directory) and `fat_tree_space_reusable`.
   NOT proved: that the WriteAt calls of the model's operations produce `image` (the images written
   are parameters of the operations; tied by the correspondence), open handles that live across calls,
   8.3 aliasing of names, rename across directories (the code refuses it); those clauses are carried
@@ -32,6 +34,7 @@ import DiskfsModel.Proofs.FatTreeStep
 import DiskfsModel.Proofs.FatTreeFree
 import DiskfsModel.Proofs.FatTreeFit
 import DiskfsModel.Proofs.FatTreeImgStep
+import DiskfsModel.Proofs.FatTreeSpace
 import DiskfsModel.Model.Fat.Fs
 import DiskfsModel.Generated.Fat
 namespace Diskfs.Fat.C01
@@ -408,6 +411,56 @@ example : reopen exTGeom2 8 2 exTree2.m (image exX exTGeom2 exTree2) (exTree2.ch
   fat_reopen_image exEqn exX exTGeom2 8 2 exTree2 exX_ok exTGeom2_ok (by decide) exTree2_inv exTree2_fit
     exTree2_imgok exTree2_depth
 example : OpOk exX exTGeom2 (.create [[66]] [67] []) := by decide
+
+/-! ### E‴ — lack of space, characterised -/
+
+/-- **fat_tree_create_enospc_iff**: `OpenFile(dir/n, O_CREATE)` of a name that does not exist in
+    the directory the path `dir` leads to (`dirAtT`: any depth) is refused for lack of space IF AND
+    ONLY IF the volume has fewer free clusters than the call needs: one for the new file's chain
+    plus the clusters that directory's own chain must grow by to hold the new entry (`growFor`: its
+    slots with the new name's, rounded up to clusters, minus what it has; nothing in the fixed root
+    of FAT12/16). For every state that meets the invariants `TInv` and `TFit`. -/
+theorem fat_tree_create_enospc_iff (eqn) (g : TGeom) (fuel : Nat) (s : DirSt) (dir : List Spec.Name) (n : Spec.Name)
+    (img : Bytes) (b' : Nat) (s' : DirSt)
+    (he : EqnOk eqn) (hg : TGeomOk g) (hfuel : g.f.lim - 2 ≤ fuel) (h : TInv eqn g s) (hfit : TFit g s)
+    (hd : dirAtT eqn dir g.rootBase s = some (b', s')) (hn : kfind eqn s'.kids n = none) :
+    (tstep eqn g fuel s (.create dir n img)).2 = .nospace ↔
+      freeCount g.f.lim s.m < 1 + growFor g b' s'.chain s'.kids n :=
+  tstep_create_nospace_iff he hg hfuel h hfit hd hn
+
+/-- **fat_tree_mkdir_enospc_iff**: the same for `Mkdir` of one missing component. -/
+theorem fat_tree_mkdir_enospc_iff (eqn) (g : TGeom) (fuel : Nat) (s : DirSt) (dir : List Spec.Name) (n : Spec.Name)
+    (img img2 : Bytes) (b' : Nat) (s' : DirSt)
+    (he : EqnOk eqn) (hg : TGeomOk g) (hfuel : g.f.lim - 2 ≤ fuel) (h : TInv eqn g s) (hfit : TFit g s)
+    (hd : dirAtT eqn dir g.rootBase s = some (b', s')) (hn : kfind eqn s'.kids n = none) :
+    (tstep eqn g fuel s (.mkdir dir n img img2)).2 = .nospace ↔
+      freeCount g.f.lim s.m < 1 + growFor g b' s'.chain s'.kids n :=
+  tstep_mkdir_nospace_iff he hg hfuel h hfit hd hn
+
+/-- **fat_tree_space_reusable**: "space released by remove or truncate can be used again without
+    limit". After ANY history — whatever was created, grown, truncated, removed, replaced by a
+    rename or refused on the way — a create is refused for lack of space iff the data area minus
+    the clusters the files and directories of the tree own NOW is smaller than the call needs:
+    the answer depends on the present tree only, never on what the volume held before. -/
+theorem fat_tree_space_reusable (eqn) (g : TGeom) (fuel : Nat) (ops : List TOp) (s : DirSt) (dir : List Spec.Name)
+    (n : Spec.Name) (img : Bytes) (b' : Nat) (s' : DirSt)
+    (he : EqnOk eqn) (hg : TGeomOk g) (hfuel : g.f.lim - 2 ≤ fuel) (hb64 : 64 ≤ g.f.io.bpc)
+    (h : TInv eqn g s) (hfit : TFit g s)
+    (hd : dirAtT eqn dir g.rootBase (trun eqn g fuel s ops) = some (b', s')) (hn : kfind eqn s'.kids n = none) :
+    (tstep eqn g fuel (trun eqn g fuel s ops) (.create dir n img)).2 = .nospace ↔
+      g.f.lim - 2 - (ownedClusters (trun eqn g fuel s ops)).length < 1 + growFor g b' s'.chain s'.kids n := by
+  rw [tstep_create_nospace_iff he hg hfuel (trun_inv he hg hfuel ops s h) (trun_fit he hg hfuel hb64 ops s h hfit) hd hn]
+  have := trun_free_count he hg hfuel ops s h
+  omega
+
+/-- non-vacuity: in the two-cluster subdirectory [66] of `exTree2` (5 of 8 data clusters free) a new
+    entry needs one cluster for the file and one more for the directory: not refused -/
+example : dirAtT exEqn [[66]] exTGeom2.rootBase exTree2 = some (2, ⟨exTree2.m, exTree2.d, [3, 4], [.file [65] [2] 3]⟩) := rfl
+example : growFor exTGeom2 2 [3, 4] [.file [65] [2] 3] [67] = 1 ∧ freeCount exTGeom2.f.lim exTree2.m = 5 := by decide
+example : (tstep exEqn exTGeom2 8 exTree2 (.create [[66]] [67] [])).2 ≠ .nospace := by
+  rw [Ne, fat_tree_create_enospc_iff exEqn exTGeom2 8 exTree2 [[66]] [67] [] 2 _ exEqn_ok exTGeom2_ok (by decide)
+    exTree2_inv exTree2_fit rfl (by decide)]
+  decide
 
 /-! ### D — names -/
 
